@@ -149,6 +149,16 @@ DESC = {
 "C13m": "email requires exactly one @", "C14m": "URIDict.normalize drops the fragment (a member-as-referrer overwrites the enclosing document's store entry)",
 "C15m": "resolve_fragment memoises by (id(document), fragment) (a re-fetched or short-lived document gets another's value)", "C16m": "legacy type-check memo keyed by the reprs of the given classes and the instance class (distinct classes sharing a name are confused)",
 "C17m": "ErrorTree.__getitem__ accepts decimal strings for array indices (tree['0'] creates/returns the node of 0)", "C18m": "_generate_legacy_type_checks accumulates in a mutable default (every types= validator also gets what earlier ones asked for)",
+"C01n": "extras_msg sorts the extras (TypeError for unorderable surplus items; same slip as C05m, seeded independently)", "C02n": "$ref keyword skips a reference whose (text, instance) is already in progress (same text in another document is taken for a cycle)",
+"C03n": "equal() compares objects member by member without a `key in two` guard (KeyError escapes from enum/const)", "C04n": "$ref keyword skips a reference whose (url, instance) is in progress on the validator (a suspended iteration blinds other calls)",
+"C05n": "find_additional_properties also treats the keys of a sibling `dependencies` as declared", "C06n": "resolve_fragment decodes ~0 before ~1 (~01 becomes /)",
+"C07n": "resolve_remote appends the handler's scheme to urllib.parse.uses_relative/uses_netloc", "C08n": "uniq() refactored to return the duplicate or None (a duplicated null goes unnoticed)",
+"C09n": "iter_errors skips keywords whose value equals the metaschema's declared default (draft-3 divisibleBy: 1)", "C10n": "Validator.__init__ snapshots the schema recursively (a deeply nested foreign value raises RecursionError)",
+"C11n": "equal(): element-wise comparison whose string guard says `and` (a string equals the array of its characters)", "C12n": "Validator.__init__ swaps the positions of resolver and format_checker",
+"C13n": "idn-hostname rejects a numeric last label by indexing it (IndexError for a trailing dot)", "C14n": "Validator.__init__ builds its default resolver without id_of (draft 3/4 root `id` ignored)",
+"C15n": "resolve answers '#'-references straight from store[base] (KeyError when the fetched document was not kept)", "C16n": "validates() removes the metaschema ids of the class that held the version name before",
+"C17n": "ErrorTree._instance default is a fresh Unset sentinel, __getitem__ still compares with the module's", "C18n": "process-wide memo of URLs urllib could not fetch, consulted before handler dispatch",
+"C19n": "_Outputter.load uses raw_decode (trailing garbage after a JSON value is accepted)", "C20n": "validator_for requires a dict, not any Mapping, to look for $schema",
 "C19m": "cli.run without --base-uri builds the resolver without the class's id_of (same slip as C02m, seeded independently)", "C20m": "create() registers only for a truthy version (version='' is silently not registered)",
 }
 MISSED = set("C03 C07 C12 C15 C16 C20 C02b C06b C07b C10b C11b C14b C19b C01c C02c C06c C10c C12c C15c C16c C18c C19c C20c "
@@ -161,7 +171,8 @@ MISSED = set("C03 C07 C12 C15 C16 C20 C02b C06b C07b C10b C11b C14b C19b C01c C0
              "C02j C04j C05j C06j C07j C08j C10j C13j C15j C19j "
              "C02k C04k C08k C10k C11k C12k C14k C17k C18k C19k C20k "
              "C01l C04l C06l C07l C08l C10l C11l C16l C17l C18l C19l C20l "
-             "C02m C03m C04m C05m C08m C10m C12m C14m C16m C18m C19m C20m".split())
+             "C02m C03m C04m C05m C08m C10m C12m C14m C16m C18m C19m C20m "
+             "C01n C02n C04n C10n C11n C12n C15n C16n C18n C19n C20n".split())
 rows = []
 for name in sorted(os.listdir(os.path.join(HERE, "seeded"))):
     mp = os.path.join(HERE, "seeded", name, "meta.json")
